@@ -234,7 +234,7 @@ pub(crate) struct StaticKeyMap(pub(crate) Vec<(&'static str, Value)>);
 
 impl Object for StaticKeyMap {
     fn get_value(self: &Arc<Self>, key: &Value) -> Option<Value> {
-        self.get_value_by_str(key.as_str()?)
+        self.get_value_by_str(key.as_key_str()?)
     }
 
     fn get_value_by_str(self: &Arc<Self>, key: &str) -> Option<Value> {
@@ -1442,6 +1442,19 @@ impl Value {
             ValueRepr::String(ref s, _) => Some(s as &str),
             ValueRepr::SmallStr(ref s) => Some(s.as_str()),
             ValueRepr::Bytes(ref b) => str::from_utf8(b).ok(),
+            _ => None,
+        }
+    }
+
+    /// Like [`as_str`](Self::as_str) but only for string values.
+    ///
+    /// Bytes that hold valid utf-8 are never equal to a string, so they must
+    /// not find a string key in a map.
+    #[inline]
+    pub(crate) fn as_key_str(&self) -> Option<&str> {
+        match self.0 {
+            ValueRepr::String(ref s, _) => Some(s as &str),
+            ValueRepr::SmallStr(ref s) => Some(s.as_str()),
             _ => None,
         }
     }
